@@ -1,4 +1,69 @@
-import StrumModel
+import StrumProofs.C05
+import StrumProofs.Lemmas.NamesGen
+/-
+C04 — EnumIter yields every enabled variant exactly once, in declaration order.
+-/
 namespace Strum
-theorem c04_placeholder : True := trivial
+
+theorem foldl_count (l : List Variant) (acc : Nat) :
+    l.foldl (fun acc v => if !v.disabled then acc + 1 else acc) acc =
+      acc + (l.filter (fun v => !v.disabled)).length := by
+  induction l generalizing acc with
+  | nil => simp
+  | cons v vs ih =>
+    simp only [List.foldl_cons, List.filter_cons, ih]
+    cases v.disabled <;> simp <;> omega
+
+/-- `COUNT` is the number of enabled variants -/
+theorem enumCount_eq (d : EnumDef) : enumCount d = d.enabled.length := by
+  unfold enumCount EnumDef.enabled
+  rw [foldl_count]; simp
+
+/-- **The item table is the enabled variants, in declaration order, each with every payload field
+    `Default::default()`; disabled variants do not occur wherever they are declared.** -/
+theorem iter_table (d : EnumDef) :
+    iterTable d = (d.variants.filter (fun v => !v.disabled)).map
+      (fun v => (v.ident, List.replicate v.fields.arity FieldInit.dflt)) := rfl
+
+theorem iter_table_no_disabled (d : EnumDef) (hid : (d.variants.map (·.ident)).Nodup)
+    (v : Variant) (hv : v ∈ d.variants) (hdis : v.disabled = true) :
+    ∀ x ∈ iterTable d, x.1 ≠ v.ident := by
+  intro x hx hxv
+  rw [iter_table] at hx
+  simp only [List.mem_map, List.mem_filter, Bool.not_eq_eq_eq_not, Bool.not_true] at hx
+  obtain ⟨w, ⟨hw, hwd⟩, rfl⟩ := hx
+  have := inj_of_nodup_map (·.ident) d.variants hid w hw v hv hxv
+  rw [this, hdis] at hwd; cases hwd
+
+theorem bound_of_small (N : Nat) (h : N < 2 ^ 32) : 2 * N + 1 < W := by
+  rw [W_eq]; omega
+
+/-- **`iter().collect()` visits positions `0, 1, .., N-1` of the table exactly once, in order.** -/
+theorem iter_collect (N : Nat) (hN : 2 * N + 1 < W) : collectFuel N (N + 2) iterInit = List.range N := by
+  rw [collectFuel_eq N hN (N + 2) iterInit (iterInv_init N) (by simp [iterAbs_init]), iterAbs_init]
+
+/-- **Iterating from the back yields the exact reverse.** -/
+theorem iter_rev (m : Mode) (N : Nat) (hN : 2 * N + 1 < W) :
+    collectBackFuel m N (N + 2) iterInit = (List.range N).reverse := by
+  rw [collectBackFuel_eq m N hN (N + 2) iterInit (iterInv_init N) (by simp [iterAbs_init]), iterAbs_init]
+
+/-- **The number of items equals `EnumCount::COUNT`.** -/
+theorem iter_count (d : EnumDef) (hN : 2 * (iterTable d).length + 1 < W) :
+    (collectFuel (iterTable d).length ((iterTable d).length + 2) iterInit).length = enumCount d := by
+  rw [iter_collect _ hN, enumCount_eq]
+  simp [iterTable]
+
+/-- each enabled variant occurs exactly once among the yielded items (identifiers are unique) -/
+theorem iter_table_nodup (d : EnumDef) (hid : (d.variants.map (·.ident)).Nodup) :
+    ((iterTable d).map (·.1)).Nodup := by
+  have : (iterTable d).map (·.1) = d.enabled.map (·.ident) := by
+    simp [iterTable, Function.comp_def]
+  rw [this]
+  exact enabled_idents_nodup d hid
+
+/-! non-vacuity -/
+example : iterTable { variants := [{ ident := [65] }, { ident := [66], disabled := true }, { ident := [67], fields := .tuple 2 }] }
+    = [([65], []), ([67], [.dflt, .dflt])] := by decide
+example : collectFuel 3 5 iterInit = [0, 1, 2] := by decide
+
 end Strum
